@@ -203,7 +203,7 @@ pub fn shrink(plan: &Plan, v: &Violation) -> (Plan, Violation) {
 pub fn signature(plan: &Plan, v: &Violation) -> String {
     let st = plan.steps.get(v.step);
     let extra = match st {
-        Some(Step::Load { ty, fmt, .. }) => format!("ty={}:fmt={}", crate::disk::ty_name(*ty), if *fmt == 0 { "bincode" } else { "json" }),
+        Some(Step::Load { ty, fmt, .. }) => format!("ty={}:fmt={}", crate::disk::ty_name(*ty), ["bincode", "json", "bincode-varint", "bincode-be"][(*fmt as usize).min(3)]),
         Some(Step::SimFmt { ty, shape, tk, extra, err_at, .. }) => format!(
             "ty={}:shape={}:trailing={}:tk={}:err={}",
             crate::disk::ty_name(*ty),
